@@ -50,15 +50,37 @@ theorem C10_wait (us : Nat) :
     pollArg us = -1 ∨ (0 ≤ pollArg us ∧ pollArg us * 1000 ≤ (us : Int) ∧ (us : Int) < (pollArg us + 1) * 1000) :=
   pollArg_granularity us (by decide) (by decide)
 
+/-- **C10_no_early_eof** — the kernel may report end of file while a packet queued by a peer that closed right afterwards is still in the
+queue (it looks at the queue first and at the shutdown flag afterwards; `race = true`).  In the variant of the source
+(end of file confirmed by a second, non-blocking look — `C10_shape`), whatever the receive mode and whether or not the race
+happens: `disconnected` is answered only when nothing is queued and no sender is left, and every answer is the one the
+race-free kernel would have given. -/
+theorem C10_no_early_eof (k : K) (m : Mode) (b race : Bool) :
+    ((recvFirstR k m b race).1 = .disconnected → k.queue = [] ∧ k.peerAlive = false) ∧
+    recvFirstR k m b race = recvFirst k m b :=
+  ⟨disconnected_only_when_drained k m b race, recvFirstR_eq k m b race⟩
+
+/-- the system calls of one receive (compared with the interposed trace): one recvmsg, two when the first reported end of file -/
+theorem C10_trace_shape (k : K) (m : Mode) (b race : Bool) :
+    let rr := (callV true k m b race).1
+    rr = [.recvmsg] ∨ rr = [.recvmsg, .recvmsg] ∨ rr = [.setNB, .recvmsg, .clearNB] ∨ rr = [.setNB, .recvmsg, .recvmsg, .clearNB] ∨
+    (∃ us, m = .timeout us ∧ (rr = [.poll (pollArg us)] ∨ rr = [.poll (pollArg us), .recvmsg] ∨ rr = [.poll (pollArg us), .recvmsg, .recvmsg])) :=
+  trace_shape k m b race
+
 /-- shape facts regenerated from `UnixCmsg::recv` on every run -/
 theorem C10_shape : Gen.shape_nonblockSetBefore = true ∧ Gen.shape_nonblockClearedAfter = true ∧
-    Gen.shape_pollTimeoutIsEagain = true ∧ Gen.shape_pollEvents = true := by decide
+    Gen.shape_pollTimeoutIsEagain = true ∧ Gen.shape_pollEvents = true ∧ Gen.shape_eofConfirmed = true := by decide
 
 /-- non-vacuity: a concrete idle connected channel in blocking mode; `try_recv` says empty and leaves the flag clear,
 a 1.5 ms timed receive polls for 1 ms -/
 example : (recvFirst ⟨[], true, false⟩ .nonblocking false) = (.empty, ⟨[], true, false⟩) := by decide
 example : pollArg 1500 = 1 := by decide
 example : (call ⟨[(7, true)], true, false⟩ (.timeout 1500) false).1 = [.poll 1, .recvmsg] := by decide
+
+/-- sensitivity (the code before the repair, D16): without the confirming look a message queued just before the close is overtaken by
+`disconnected` in the race window; with it the message is delivered -/
+example : (callV false ⟨[(7, true)], false, false⟩ .nonblocking false true).2.1 = .disconnected := by decide
+example : (callV true ⟨[(7, true)], false, false⟩ .nonblocking false true).2.1 = .msg 7 := by decide
 
 /-- sensitivity: the variant that forgets to clear the flag poisons a later blocking receive (it would answer `empty`, an
 error, instead of blocking) -/
